@@ -282,9 +282,16 @@ def _disarm():
     while True:
         try:
             signal.setitimer(signal.ITIMER_REAL, 0)
+            signal.setitimer(signal.ITIMER_PROF, 0)
             return
         except CaseTimeout:
             continue
+
+
+# A case is a hang when it has burnt `limit` seconds of CPU (ITIMER_PROF: independent of how loaded the
+# machine is — a loop that never ends burns CPU) or when `limit * WALL_FACTOR` seconds of wall-clock time have
+# passed (blocking waits burn no CPU).  Wall-clock alone made verdicts depend on the load of the machine.
+WALL_FACTOR = float(os.environ.get("VERIF_WALL_FACTOR", "6"))
 
 
 def _worker(case):
@@ -295,8 +302,10 @@ def _worker(case):
     again until it escapes.
     """
     signal.signal(signal.SIGALRM, _alarm)
+    signal.signal(signal.SIGPROF, _alarm)
     limit = float(getattr(_MOD, "CASE_TIMEOUT_S", CASE_TIMEOUT_S)) * float(os.environ.get("VERIF_TIMEOUT_SCALE", "1"))
-    signal.setitimer(signal.ITIMER_REAL, limit, 0.2)
+    signal.setitimer(signal.ITIMER_PROF, limit, 0.2)
+    signal.setitimer(signal.ITIMER_REAL, limit * WALL_FACTOR, 0.2)
     try:
         try:
             r = _MOD.run_impl(case)
@@ -312,7 +321,7 @@ def _worker(case):
         return r
     except CaseTimeout:
         _disarm()
-        return {"obs": [], "viol": [f"timeout: implementation call did not return within {limit}s"],
+        return {"obs": [], "viol": [f"timeout: implementation call did not return within {limit}s of CPU time / {limit * WALL_FACTOR}s of wall-clock time"],
                 "nontrivial": True, "key": "timeout", "stats": {"timeout": 1}, "timeout": True}
     except Exception as e:
         _disarm()
